@@ -13,6 +13,7 @@
 package main
 
 import (
+	"log"
 	"encoding/json"
 	"fmt"
 	"os"
@@ -102,6 +103,13 @@ type Doc struct {
 	Owner   Owner
 }
 
+// Sealed (callbacks.go) is its own serializer.
+type Vault struct {
+	ID     uint
+	Label  string
+	Secret Sealed
+}
+
 type Language struct {
 	Code string `gorm:"primaryKey"`
 	Name string
@@ -130,6 +138,7 @@ CREATE TABLE users (id integer primary key, name text, age integer, company_id i
 CREATE TABLE companies (id integer primary key, name text);
 CREATE TABLE pets (id integer primary key, user_id integer, shelter_id integer, name text);
 CREATE TABLE shelters (id integer primary key, name text);
+CREATE TABLE vaults (id integer primary key, label text, secret text);
 CREATE TABLE owners (id integer primary key, name text, deleted_at datetime);
 CREATE TABLE parts (id integer primary key, owner_id integer, name text);
 CREATE TABLE docs (id integer primary key, title text, owner_id integer);
@@ -140,7 +149,7 @@ CREATE TABLE gadgets (id integer primary key, kind text, tags text);
 CREATE TABLE plains (id integer primary key, a integer);
 `
 
-var allTables = []string{"users", "companies", "shelters", "owners", "parts", "docs", "pets", "languages", "user_languages", "toys", "gadgets", "plains"}
+var allTables = []string{"users", "companies", "shelters", "vaults", "owners", "parts", "docs", "pets", "languages", "user_languages", "toys", "gadgets", "plains"}
 
 func seedSQL() []string {
 	var out []string
@@ -150,6 +159,8 @@ func seedSQL() []string {
 			fmt.Sprintf("INSERT INTO companies (id,name) VALUES (%d,'co%d')", b, t),
 			fmt.Sprintf("INSERT INTO users (id,name,age,company_id,audit_created_by,audit_note) VALUES (%d,'u%d',%d,%d,'seed','n')", b, t, 20+t, b),
 			fmt.Sprintf("INSERT INTO shelters (id,name) VALUES (%d,'sh%d')", b, t),
+			fmt.Sprintf("INSERT INTO vaults (id,label,secret) VALUES (%d,'v%d','enc:s%d')", b, t, t),
+			fmt.Sprintf("INSERT INTO vaults (id,label,secret) VALUES (%d,'v%db','enc:s%db')", b+1, t, t),
 			fmt.Sprintf("INSERT INTO owners (id,name,deleted_at) VALUES (%d,'o%d',NULL)", b, t),
 			fmt.Sprintf("INSERT INTO owners (id,name,deleted_at) VALUES (%d,'o%dx','2019-01-01 00:00:00+00:00')", b+1, t),
 			fmt.Sprintf("INSERT INTO parts (id,owner_id,name) VALUES (%d,%d,'pt%d')", b, b, t),
@@ -243,6 +254,10 @@ var ops = map[byte]opFn{
 		var ds []Doc
 		return res(db.Joins("Owner").Where("docs.id IN ?", []int{100 * (tid + 1), 100*(tid+1) + 1}).Order("docs.id").Find(&ds), ds)
 	},
+	'V': func(db *gorm.DB, tid int) string { // model whose field type is its own serializer (pooled scan values)
+		var vs []Vault
+		return res(db.Where("id IN ?", []int{100 * (tid + 1), 100*(tid+1) + 1}).Order("id").Find(&vs), vs)
+	},
 	'G': func(db *gorm.DB, tid int) string { // unrelated model with a serializer field
 		var gs []Gadget
 		return res(db.Where("id = ?", 100*(tid+1)).Find(&gs), gs)
@@ -283,6 +298,7 @@ func (p Program) String() string {
 }
 
 type outcome struct {
+	probes  []probeRec
 	obs     [][]string
 	sch     *sched.Exec
 	dump    string
@@ -294,6 +310,9 @@ var dsnCounter int
 
 func openEnv(p Program) (*gorm.DB, *h.Env) {
 	cfg := &gorm.Config{Logger: logger.Discard, SkipDefaultTransaction: true, DisableAutomaticPing: true, PrepareStmt: p.Prep}
+	if os.Getenv("VERIF_C07_SQL") != "" { // replay aid: print every statement
+		cfg.Logger = logger.New(log.New(os.Stdout, "SQL ", 0), logger.Config{LogLevel: logger.Info})
+	}
 	clock := new(int64)
 	cfg.NowFunc = h.CounterClock(clock)
 	if p.Mode == "dry" {
@@ -302,6 +321,7 @@ func openEnv(p Program) (*gorm.DB, *h.Env) {
 		if err != nil {
 			panic(err)
 		}
+		installProbe(db)
 		return db, nil
 	}
 	rec := &recsqlite.Recorder{}
@@ -313,6 +333,7 @@ func openEnv(p Program) (*gorm.DB, *h.Env) {
 	if err != nil {
 		panic(err)
 	}
+	installProbe(db)
 	env := &h.Env{DB: db, SQL: sqldb, Rec: rec, Clock: clock}
 	for _, s := range strings.Split(ddl, ";") {
 		if strings.TrimSpace(s) != "" {
@@ -329,7 +350,7 @@ func openEnv(p Program) (*gorm.DB, *h.Env) {
 	return db, env
 }
 
-var allModels = []interface{}{&User{}, &Company{}, &Shelter{}, &Owner{}, &Part{}, &Doc{}, &Pet{}, &Language{}, &Toy{}, &Gadget{}, &Plain{}}
+var allModels = []interface{}{&User{}, &Company{}, &Shelter{}, &Vault{}, &Owner{}, &Part{}, &Doc{}, &Pet{}, &Language{}, &Toy{}, &Gadget{}, &Plain{}}
 
 // dumpSchemas renders what later operations can observe of the cached schemas.
 func dumpSchemas(db *gorm.DB) string {
@@ -383,7 +404,22 @@ func dumpSchemas(db *gorm.DB) string {
 var _ = schema.Parse
 var _ = reflect.TypeOf
 
+// writes reports whether a program writes to the database (real mode): then no
+// thread may be parked inside a scan (open cursor / RETURNING table lock).
+func (p Program) writes() bool {
+	if p.Mode != "real" {
+		return false
+	}
+	for _, t := range p.Threads {
+		if strings.ContainsAny(t, "KUD") {
+			return true
+		}
+	}
+	return false
+}
+
 func runOne(p Program, x *mc.Exec, keepLog bool, serial bool) *outcome {
+	verifshim.PoolPoints = !p.writes()
 	db, env := openEnv(p)
 	var warm *sched.Exec
 	if p.Warm {
@@ -519,6 +555,12 @@ func scheduleTags(p Program, v verdict, o *outcome) []string {
 	if _, err := fmt.Sscanf(v.msg, "thread %d op", &qThread); err != nil {
 		return nil
 	}
+	// The replay ran with the probe. The recorded window of the unchanged tree:
+	// another thread published Owner's schema (LoadOrStore) and has made at most
+	// one further step - it is still before or inside its field loop - when this
+	// thread builds a join from that schema, which has no query clauses yet. A
+	// wider window (clauses still missing after the publisher moved on) is not
+	// the recorded finding.
 	ownerKey := verifshim.KeyID(reflect.TypeOf(Owner{}))
 	log := o.sch.Log
 	pub, pubThread := -1, -1
@@ -531,22 +573,29 @@ func scheduleTags(p Program, v verdict, o *outcome) []string {
 	if pub < 0 || pubThread == qThread {
 		return nil
 	}
-	lastQ := -1
-	for i, st := range log {
-		if st.Thread == qThread {
-			lastQ = i
+	for _, pr := range o.probes {
+		if pr.thread != qThread || pr.ownerQueryClauses != 0 {
+			continue
 		}
-	}
-	progress := 0
-	for i := pub + 1; i < len(log) && i < lastQ; i++ {
-		if log[i].Thread == pubThread {
-			progress++
+		progress := 0
+		for i := pub + 1; i < len(log) && i < pr.at; i++ {
+			if log[i].Thread == pubThread {
+				progress++
+			}
 		}
-	}
-	if progress <= 1 {
-		return []string{"cold-softdelete-join-reads-owner-schema-before-its-field-loop"}
+		if progress <= 1 {
+			return []string{"cold-softdelete-join-reads-owner-schema-before-its-field-loop"}
+		}
 	}
 	return nil
+}
+
+// probeRun replays a schedule with the probe callback registered.
+func probeRun(p Program, choices []int) *outcome {
+	probing, probeLog = true, nil
+	o := runOne(p, mc.NewExec(choices), true, false)
+	o.probes, probing, probeLog = probeLog, false, nil
+	return o
 }
 
 func firstLines(s string, n int) string {
@@ -627,6 +676,10 @@ func programs(tier string, race bool) []Program {
 		add(Program{Threads: pr, Mode: "real", Prep: true, Bound: b2})
 		add(Program{Threads: pr, Mode: "real", Prep: true, Warm: true, Bound: b2})
 	}
+	add(Program{Threads: []string{"V", "V"}, Mode: "real", Bound: b2})
+	add(Program{Threads: []string{"V", "V"}, Mode: "real", Warm: true, Bound: b2})
+	add(Program{Threads: []string{"VV", "V"}, Mode: "real", Bound: b3})
+	add(Program{Threads: []string{"V", "G"}, Mode: "real", Bound: b2})
 	add(Program{Threads: []string{"S", "S"}, Mode: "real", Bound: b2})
 	add(Program{Threads: []string{"S", "L"}, Mode: "real", Bound: b2})
 	// two operations per thread
@@ -677,7 +730,14 @@ func main() {
 				fmt.Printf("T%d op%d: %s\n", ti, i, ob)
 			}
 		}
-		for _, v := range judge(rp.Program, o, ref) {
+		vs := judge(rp.Program, o, ref)
+		if len(vs) > 0 {
+			o2 := probeRun(rp.Program, rp.Choices)
+			for i := range vs {
+				vs[i].tags = scheduleTags(rp.Program, vs[i], o2)
+			}
+		}
+		for _, v := range vs {
 			fmt.Printf("VERDICT %s: %s\n", v.kind, v.msg)
 			run.Violation(v.tags, v.kind+"\n"+v.msg, rp)
 		}
@@ -770,6 +830,8 @@ func child(run *mc.Run, args mc.Args) {
 	var rl *racelog.Log
 	if sched.RaceBuild {
 		rl = racelog.New(os.Getenv("VERIF_RACE_LOG"))
+		// model callbacks live in callbacks.go: gorm calls them, so an access made there is attributed to the calling gorm statement
+		rl.Transparent = []string{"/engine/c07/callbacks.go"}
 	}
 	outcomes := map[string]bool{}
 	const sub = 4
@@ -826,7 +888,7 @@ func child(run *mc.Run, args mc.Args) {
 				vs := judge(p, o, ref)
 				if len(vs) > 0 {
 					// tags are computed from the schedule (point log) of a replay of this execution
-					o2 := runOne(p, mc.NewExec(x.ChoiceInts()), true, false)
+					o2 := probeRun(p, x.ChoiceInts())
 					if rl != nil {
 						rl.Drain()
 					}
